@@ -89,7 +89,7 @@ def optValStr : OptVal → String
 
 def handle (toks : List String) : Option String :=
   match toks with
-  | "c06.info" :: _ => some s!"rules {g.rules.length} ok {g.ok} types {(g.rules.map (·.type)).eraseDups.length} fixes {theCfg.fixE} {theCfg.fixA} {theCfg.fixB}"
+  | "c06.info" :: _ => some s!"rules {g.rules.length} ok {g.ok} types {(g.rules.map (·.type)).eraseDups.length} fixes {theCfg.fixE} {theCfg.fixA} {theCfg.fixB} netsubs {Gen.Grammar.netsubsDelegates}"
   | ["c06.split", h] => some <|
       match dec h with
       | none => "bad-op"
@@ -159,6 +159,13 @@ def handle (toks : List String) : Option String :=
       match dec h with
       | none => "bad-op"
       | some s => enc (argFormat g.delimiters s)
+  | "c06.netsubs" :: rest => some <|
+      -- `cpt._netsubs()` of the checked-out code (delegating to `_netmake1` or the legacy loop)
+      match decCpt rest with
+      | none => "bad-op"
+      | some c => match netSubs Gen.Grammar.netsubsDelegates theCfg g c with
+        | none => "unprintable"
+        | some s => "ok " ++ enc s
   | "c06.normal" :: rest => some <|
       -- is the component in the normal form of `C06Line.line_roundtrip_full` (hypotheses evaluated by Lean)?
       match decCpt rest with
